@@ -386,34 +386,73 @@ func runC02(c *Case, out func(string)) {
 	out(fmt.Sprintf("META writes=%d crash_runs=%d crashes_hit=%d sync=%s nontrivial=%d", len(writes), ncrash, nhit, mode, nt))
 }
 
+// genStraddleBody emits a program whose unsynced single puts fill the 64 KB log buffer so
+// that the free space left for the following batch is aimed exactly at the batch's size:
+// free = (sum of the batch's record payloads) + d, for d around 0 and around 7*k (k record
+// headers), i.e. the places where a wrong size estimate or flush condition in AppendBatch
+// lets the buffer flush in the middle of the batch. Then crash directives inside and right
+// after the batch append. The log buffer holds (bytes written so far) mod 65536.
+func genStraddleBody(w *bufio.Writer, r *rand.Rand) {
+	const buf = 65536
+	k := 4 + r.Intn(8)
+	if r.Intn(4) == 0 {
+		k = 150 + r.Intn(100) // many small entries: 7 bytes per entry exceed any padding
+	}
+	type ent struct{ key string; vl int }
+	var batch []ent
+	payload := 0
+	for j := 0; j < k; j++ {
+		vl := 300 + r.Intn(500)
+		if k > 100 {
+			vl = 8 + r.Intn(24)
+		}
+		key := fmt.Sprintf("b%03d", j)
+		batch = append(batch, ent{key, vl})
+		payload += 13 + len(key) + 4 + vl
+	}
+	ds := []int{-1, 0, 1, 3, 7*k - 1, 7 * k, 7*k + 1, 7*k/2, 7*k + 1024, 7*k + 1025}
+	free := payload%buf + ds[r.Intn(len(ds))]
+	if free < 0 {
+		free = 0
+	}
+	target := buf - free%buf // bytes to have written before the batch (mod buf)
+	if target < 3000 {
+		target += buf
+	}
+	used := 0
+	i := 0
+	for used+1400 < target {
+		vl := 700 + r.Intn(500)
+		key := fmt.Sprintf("s%03d", i)
+		fmt.Fprintf(w, "put %s @%d:%d\n", mkTok([]byte(key)), vl, r.Intn(1<<20))
+		used += 7 + 13 + len(key) + 4 + vl
+		i++
+	}
+	// one last put sized to land exactly on the target
+	key := fmt.Sprintf("s%03d", i)
+	rest := target - used - (7 + 13 + len(key) + 4)
+	if rest >= 0 {
+		fmt.Fprintf(w, "put %s %s\n", mkTok([]byte(key)), lenTok(r, rest))
+		i++
+	}
+	kind := []string{"batch", "commit"}[r.Intn(2)]
+	fmt.Fprintf(w, "%s %d\n", kind, k)
+	for _, e := range batch {
+		fmt.Fprintf(w, "p %s @%d:%d\n", mkTok([]byte(e.key)), e.vl, r.Intn(1<<20))
+	}
+	fmt.Fprintf(w, "put %s %s\n", mkTok([]byte("after")), mkTok([]byte("x")))
+	fmt.Fprintf(w, "crash wal.batch.record %d\ncrash wal.batch.record %d\ncrash wal.batch.record %d\ncrash wal.batch.buffered 1\ncrash mgr.batch.logged 1\ncrash mgr.batch.insert %d\ncrash mgr.put.logged %d\ncrash none 0\n",
+		1+r.Intn(k), k, 1+k/2, 1+r.Intn(k), i+1)
+	fmt.Fprintf(w, "end\n")
+}
+
 func genC02(w *bufio.Writer, seed int64, n int, tier string) {
 	r := rand.New(rand.NewSource(seed*7877 + 2))
 	for ci := 0; ci < n; ci++ {
 		if ci%6 == 5 {
-			// directed: fill the 64 KB log buffer to just around its boundary with unsynced
-			// single writes, then a multi-key batch that straddles it, and die inside or right
-			// after the batch append: a batch must reach the log file whole or not at all
 			mode := []string{"none", "batch"}[r.Intn(2)]
 			fmt.Fprintf(w, "case c02-%d-%d memsize=10000000 sync=%s\n", seed, ci, mode)
-			target := 65536 - 3000 + r.Intn(3500)
-			used := 0
-			i := 0
-			for used < target {
-				vl := 700 + r.Intn(600)
-				fmt.Fprintf(w, "put %s @%d:%d\n", mkTok([]byte(fmt.Sprintf("s%03d", i))), vl, r.Intn(1<<20))
-				used += 7 + 13 + 4 + 4 + vl
-				i++
-			}
-			k := 4 + r.Intn(8)
-			kind := []string{"batch", "commit"}[r.Intn(2)]
-			fmt.Fprintf(w, "%s %d\n", kind, k)
-			for j := 0; j < k; j++ {
-				fmt.Fprintf(w, "p %s @%d:%d\n", mkTok([]byte(fmt.Sprintf("b%02d", j))), 300+r.Intn(500), r.Intn(1<<20))
-			}
-			fmt.Fprintf(w, "put %s %s\n", mkTok([]byte("after")), mkTok([]byte("x")))
-			fmt.Fprintf(w, "crash wal.batch.record %d\ncrash wal.batch.record %d\ncrash wal.batch.buffered 1\ncrash mgr.batch.logged 1\ncrash mgr.batch.insert %d\ncrash mgr.put.logged %d\ncrash none 0\n",
-				1+r.Intn(k), k, 1+r.Intn(k), i+1)
-			fmt.Fprintf(w, "end\n")
+			genStraddleBody(w, r)
 			continue
 		}
 		memsize := []int{150, 300, 1000, 100000}[r.Intn(4)]
